@@ -553,14 +553,17 @@ SHAPES0 = [
 HOT_IDS = ["a", "ａ", "ﬁ", "fi", "class", "None", "caller", "varargs", "kwargs", "l_1_a"]
 
 
-def all_shapes(full=True):
-    """full: every ordered identifier pair in the two-name shapes; otherwise
-    pairs over the ten most hostile identifiers only."""
+MID_IDS = HOT_IDS + ["b", "ª", "def", "True", "not", "self", "loop", "_", "l_0_a", "٣a"]
+
+
+def all_shapes(full=2):
+    """full=2: every ordered identifier pair in the two-name shapes; 1: pairs
+    over twenty identifiers; 0: pairs over the ten most hostile ones."""
     out = [("shape0", s) for s in SHAPES0]
     for sh in SHAPES1:
         for a in IDS:
             out.append(("shape1", sh.replace("P", a)))
-    ids2 = IDS if full else HOT_IDS
+    ids2 = (HOT_IDS, MID_IDS, IDS)[int(full)]
     for sh in SHAPES2:
         for a in ids2:
             for b in ids2:
@@ -631,7 +634,7 @@ def run(ctx: core.Ctx):
     # (c) mutations
     n = len(CORPUS)
     cshards = []
-    d1 = {ci: (n if ci == 0 else (60 if q else 300)) for ci in range(len(CONFIGS))}
+    d1 = {ci: (n if ci == 0 else (40 if q else 300)) for ci in range(len(CONFIGS))}
     if q:
         d1[0] = min(n, 400)
     d2 = {ci: (0 if q else (60 if ci == 0 else 15)) for ci in range(len(CONFIGS))}
@@ -650,7 +653,7 @@ def run(ctx: core.Ctx):
     step = 1500
     sshards = []
     for ci in range(len(CONFIGS)):
-        full = ci == 0 or not q
+        full = 2 if not q else (1 if ci == 0 else 0)
         total = len(all_shapes(full))
         sshards += [(ci, full, lo, min(total, lo + step)) for lo in range(0, total, step)]
         bounds.setdefault("shape_cases", {})[CONFIGS[ci][0]] = total
